@@ -1097,4 +1097,283 @@ theorem stallProbes_pw (hc : Bool) (cto : Option Nat) (pkt : Sys.Bytes) (seq : O
       dsimp only
       exact ⟨.cons (p1.mono (FnLe.refl _) h2) (h1.mono (fun a b h => h.mono p2 (FnLe.refl _))), p2.trans h2⟩
 
+/-! ## 7. The client arm (`handle_srt_packet`) -/
+
+theorem PW.comp {α : Type} {R S T : α → α → Prop} {as bs cs : List α} (h1 : PW R as bs) (h2 : PW S bs cs)
+    (ht : ∀ a b c, R a b → S b c → T a c) : PW T as cs := by
+  induction h1 generalizing cs with
+  | nil => cases h2; exact .nil
+  | cons hr _ ih =>
+    cases h2 with
+    | cons hr' h2' => exact .cons (ht _ _ _ hr hr') (ih h2')
+
+/-- The index `handle_srt_packet` forwards on, after registration. -/
+def clientSel (s : Sys F) (pkt : Sys.Bytes) (now : Nat) : Option Nat :=
+  if (Codec.getSrtSequenceNumberS pkt).isSome && !s.cfg.classic &&
+      (decide (s.critDeadline > now) || Codec.isSrtDataRetransmitS pkt) then
+    match bestQualityEligible ((runSelect s now).1.links.map FLink.toSLink) now with
+    | some b => if (runSelect s now).2 != some b then some b else (runSelect s now).2
+    | none => (runSelect s now).2
+  else (runSelect s now).2
+
+/-- State after `handle_srt_packet` forwarded on link `i` (after registration). -/
+def clientFwd (s : Sys F) (pkt : Sys.Bytes) (now i : Nat) : Sys F :=
+  let seq := Codec.getSrtSequenceNumberS pkt
+  let s2 := (forwardVia (runSelect s now).1 i pkt seq now).1
+  if seq.isSome then
+    { s2 with links := (stallProbesGo pkt seq now i s2.links 0 s2.failNext).1,
+              failNext := (stallProbesGo pkt seq now i s2.links 0 s2.failNext).2.2, clientKnown := true }
+  else { s2 with clientKnown := true }
+
+theorem handleSrtPacket_some (s : Sys F) (pkt : Sys.Bytes) (now i : Nat) (hne : pkt.isEmpty = false)
+    (hc : s.reg.hasConnected = true) (hsel : clientSel s pkt now = some i) :
+    (handleSrtPacket s pkt now).1 = clientFwd s pkt now i := by
+  unfold handleSrtPacket clientFwd
+  simp only [hne, hc, Bool.false_eq_true, if_false, Bool.not_true]
+  split
+  · rename_i j heq
+    have hj : some j = some i := heq.symm.trans hsel
+    cases hj
+    split <;> rfl
+  · rename_i heq
+    have hj : none = some i := heq.symm.trans hsel
+    cases hj
+
+theorem handleSrtPacket_none (s : Sys F) (pkt : Sys.Bytes) (now : Nat) (hne : pkt.isEmpty = false)
+    (hc : s.reg.hasConnected = true) (hsel : clientSel s pkt now = none) :
+    (handleSrtPacket s pkt now).1 = { (runSelect s now).1 with clientKnown := true } := by
+  unfold handleSrtPacket
+  simp only [hne, hc, Bool.false_eq_true, if_false, Bool.not_true]
+  split
+  · rename_i j heq
+    have hj : some j = none := heq.symm.trans hsel
+    cases hj
+  · rfl
+
+theorem handleSrtPacket_pre (s : Sys F) (pkt : Sys.Bytes) (now : Nat) (hne : pkt.isEmpty = false)
+    (hc : s.reg.hasConnected = false) :
+    (handleSrtPacket s pkt now).1 =
+      match selectPreRegistration s.links s.lastSelected now with
+      | some i => { (forwardVia s i pkt (Codec.getSrtSequenceNumberS pkt) now).1 with clientKnown := true }
+      | none => { s with clientKnown := true } := by
+  unfold handleSrtPacket
+  simp only [hne, hc, Bool.false_eq_true, if_false, Bool.not_false, if_true]
+  split <;> (rename_i heq; rw [heq])
+
+/-! ### the selection pass -/
+
+theorem zip_map_self {α β γ : Type} (ls : List α) (h : α → β) (f : α × β → γ) :
+    (ls.zip (ls.map h)).map f = ls.map (fun l => f (l, h l)) := by
+  induction ls with
+  | nil => rfl
+  | cons a as ih => simp [ih]
+
+omit [Scalar F] in
+theorem usp_timeout (c : SLink F) (now : Nat) (m : Int) (ce : Nat) :
+    (updateSilencePull c now m ce).connTimeoutMs = c.connTimeoutMs := by
+  unfold updateSilencePull
+  dsimp only
+  repeat' split
+  all_goals rfl
+
+omit [Scalar F] in
+theorem usl_timeout (c : SLink F) (now : Nat) (m : Int) (ce : Nat) :
+    (updateStallLatch c now m ce).connTimeoutMs = c.connTimeoutMs := by
+  unfold updateStallLatch
+  dsimp only
+  repeat' split
+  all_goals rfl
+
+omit [Scalar F] in
+theorem applyStallGate_timeout (ls : List (SLink F)) (now : Nat) (cfg : Select.Cfg) :
+    ∀ c ∈ applyStallGate ls now cfg, c.connTimeoutMs = cfg.connTimeoutMs := by
+  intro c hc
+  cases hs : cfg.stallDeselect
+  · rw [applyStallGate_off ls now cfg hs] at hc
+    obtain ⟨d, -, rfl⟩ := List.mem_map.1 hc
+    rfl
+  · rw [applyStallGate_on ls now cfg hs] at hc
+    obtain ⟨d, hd, rfl⟩ := List.mem_map.1 hc
+    obtain ⟨e, -, rfl⟩ := List.mem_map.1 hd
+    show (guardStep now cfg e).connTimeoutMs = _
+    unfold guardStep
+    rw [usl_timeout, usp_timeout]
+
+/-- After `select_connection_idx` every link carries the configured connection timeout. -/
+theorem selectIdx_timeout (ls : List (SLink F)) (last : Option Nat) (now : Nat) (cfg : Select.Cfg) :
+    ∀ c ∈ (selectIdx ls last now cfg).1, c.connTimeoutMs = cfg.connTimeoutMs := by
+  obtain ⟨f, hf, e⟩ := selectIdx_fst ls last now cfg
+  intro c hc
+  rw [e] at hc
+  obtain ⟨d, hd, rfl⟩ := List.mem_map.1 hc
+  obtain ⟨q, t, hq⟩ := hf d
+  rw [hq]
+  exact applyStallGate_timeout ls now cfg d hd
+
+/-- The selection pass, link by link: guard-private fields, quality cache and the timeout copy are
+written back (`absorb`); the written timeout is the configured one. -/
+theorem runSelect_links (s : Sys F) (now : Nat) :
+    ∃ g : SLink F → SLink F,
+      (runSelect s now).1.links = s.links.map (fun l => l.absorb (g l.toSLink)) ∧
+      (∀ c, frame (g c) = frame c) ∧
+      (∀ l ∈ s.links, (g l.toSLink).connTimeoutMs = s.cfg.connTimeoutMs) ∧
+      (selectIdx (s.links.map FLink.toSLink) s.lastSelected now s.cfg).1 = (s.links.map FLink.toSLink).map g := by
+  obtain ⟨g, hg, hp⟩ := selectIdx_map (s.links.map FLink.toSLink) s.lastSelected now s.cfg
+  refine ⟨g, ?_, fun c => (hp c).1, ?_, hg⟩
+  · unfold runSelect
+    dsimp only
+    rw [hg, List.map_map, zip_map_self]
+    rfl
+  · intro l hl
+    apply selectIdx_timeout (s.links.map FLink.toSLink) s.lastSelected now s.cfg
+    rw [hg]
+    exact List.mem_map.2 ⟨l.toSLink, List.mem_map.2 ⟨l, hl, rfl⟩, rfl⟩
+
+theorem runSelect_other (s : Sys F) (now : Nat) :
+    (runSelect s now).1.reg = s.reg ∧ (runSelect s now).1.cfg = s.cfg ∧
+    (runSelect s now).1.failNext = s.failNext := ⟨rfl, rfl, rfl⟩
+
+theorem runSelect_pw (hc : Bool) (s : Sys F) (now : Nat) :
+    PW (Evolves hc (some s.cfg.connTimeoutMs)) s.links (runSelect s now).1.links := by
+  obtain ⟨g, h1, -, h3, -⟩ := runSelect_links s now
+  rw [h1]
+  have : ∀ ls : List (FLink F), (∀ l ∈ ls, (g l.toSLink).connTimeoutMs = s.cfg.connTimeoutMs) →
+      PW (Evolves hc (some s.cfg.connTimeoutMs)) ls (ls.map (fun l => l.absorb (g l.toSLink))) := by
+    intro ls
+    induction ls with
+    | nil => intro _; exact .nil
+    | cons a as ih =>
+      intro h
+      refine .cons ?_ (ih (fun l hl => h l (List.mem_cons_of_mem _ hl)))
+      have := ev_absorb hc a (g a.toSLink)
+      rw [h a (List.mem_cons_self)] at this
+      exact this
+  exact this s.links h3
+
+/-- (Copy of `C04_selector_eligible`, schedulable part, kept here so that this file depends on
+`Lemmas/SelectFrame` only.) -/
+theorem selector_schedulable (ls : List (SLink F)) (last : Option Nat) (now : Nat) (cfg : Select.Cfg) (i : Nat)
+    (h : (selectIdx ls last now cfg).2 = some i) :
+    ∃ c, (selectIdx ls last now cfg).1[i]? = some c ∧ schedulable c = true := by
+  unfold selectIdx at h ⊢
+  dsimp only at h ⊢
+  split at h
+  · rename_i hc
+    rw [if_pos hc]
+    obtain ⟨c, h1, h2, h3⟩ := classicSelect_eligible _ now i h
+    simp only [Bool.or_eq_false_iff, Bool.not_eq_false'] at h2
+    exact ⟨c, h1, h2.1.2⟩
+  · rename_i hc
+    rw [if_neg hc]
+    obtain ⟨c, h1, h2⟩ := enhancedSelect_scored _ last now _ i h
+    rw [enhancedSelect_fst]
+    refine ⟨enhStep now (cfg.quality && !cfg.classic) (anyUnconstrained (applyStallGate ls now cfg) now) c,
+      by simp [h1], ?_⟩
+    have hq := cacheEq_enhStep now (cfg.quality && !cfg.classic)
+      (anyUnconstrained (applyStallGate ls now cfg) now) c
+    rw [hq.schedulable]
+    simp only [enhSkip, Bool.or_eq_false_iff, Bool.not_eq_false'] at h2
+    exact h2.1.1.1.2
+
+theorem override_schedulable (ls : List (SLink F)) (now : Nat) (i : Nat)
+    (h : bestQualityEligible ls now = some i) : ∃ c, ls[i]? = some c ∧ schedulable c = true := by
+  unfold bestQualityEligible at h
+  rcases bestQualityGo_inv now ls 0 none Scalar.negInf with h0 | ⟨j, c, h1, h2, h3⟩
+  · rw [h0] at h; cases h
+  · rw [h1] at h
+    have : i = j := by simpa using h.symm
+    subst this
+    simp only [Bool.or_eq_false_iff, Bool.not_eq_false'] at h3
+    exact ⟨c, h2, h3.1.1.2⟩
+
+/-- Whatever index the shell forwards on after registration is a link that is not `Registering`
+(selector: C04 eligibility; override: eligible filter). -/
+theorem clientSel_schedulable (s : Sys F) (pkt : Sys.Bytes) (now i : Nat) (h : clientSel s pkt now = some i)
+    (l : FLink F) (hl : (runSelect s now).1.links[i]? = some l) : l.core.phase ≠ .registering := by
+  obtain ⟨g, h1, h2, -, h4⟩ := runSelect_links s now
+  -- the selector's own result
+  have hsel0 : ∀ j, (runSelect s now).2 = some j → ∀ l', (runSelect s now).1.links[j]? = some l' →
+      l'.core.phase ≠ .registering := by
+    intro j hj l' hl'
+    have hj' : (selectIdx (s.links.map FLink.toSLink) s.lastSelected now s.cfg).2 = some j := hj
+    obtain ⟨c, hc1, hc2⟩ := selector_schedulable _ _ _ _ _ hj'
+    rw [h4, List.map_map, List.getElem?_map] at hc1
+    rw [h1, List.getElem?_map] at hl'
+    cases hsl : s.links[j]? with
+    | none => rw [hsl] at hl'; cases hl'
+    | some x =>
+      rw [hsl] at hl' hc1
+      simp only [Option.map_some, Option.some.injEq, Function.comp] at hl' hc1
+      subst hl' hc1
+      have hf := h2 x.toSLink
+      have hph : (g x.toSLink).phase = x.core.phase := congrArg Frame.phase hf
+      unfold schedulable at hc2
+      rw [hph] at hc2
+      show x.core.phase ≠ _
+      simpa using hc2
+  unfold clientSel at h
+  split at h
+  · split at h
+    · rename_i b hb
+      obtain ⟨c, hc1, hc3⟩ := override_schedulable _ _ _ hb
+      split at h
+      · have hib : b = i := by simpa using h
+        subst hib
+        rw [List.getElem?_map, hl] at hc1
+        simp only [Option.map_some, Option.some.injEq] at hc1
+        subst hc1
+        unfold schedulable at hc3
+        show l.core.phase ≠ _
+        simpa [FLink.toSLink] using hc3
+      · exact hsel0 i h l hl
+    · exact hsel0 i h l hl
+  · exact hsel0 i h l hl
+
+/-- **Client event, link by link.** -/
+theorem client_pw (s : Sys F) (pkt : Sys.Bytes) (now : Nat) :
+    PW (SendStep s.reg.hasConnected (some s.cfg.connTimeoutMs) s.failNext (handleSrtPacket s pkt now).1.failNext)
+      s.links (handleSrtPacket s pkt now).1.links ∧
+    (handleSrtPacket s pkt now).1.reg = s.reg ∧ (handleSrtPacket s pkt now).1.cfg = s.cfg := by
+  cases hne : pkt.isEmpty
+  case true =>
+    have : handleSrtPacket s pkt now = (s, {}) := by unfold handleSrtPacket; simp [hne]
+    rw [this]
+    exact ⟨PW.refl (SendStep.refl _ _ _ _) _, rfl, rfl⟩
+  case false =>
+  cases hc : s.reg.hasConnected
+  case false =>
+    rw [handleSrtPacket_pre s pkt now hne hc]
+    split
+    · rename_i i _
+      obtain ⟨f1, -, f3, f4⟩ := forwardVia_pw false (some s.cfg.connTimeoutMs) s i pkt
+        (Codec.getSrtSequenceNumberS pkt) now (fun h => by cases h)
+      exact ⟨f1, f3, f4⟩
+    · exact ⟨PW.refl (SendStep.refl _ _ _ _) _, rfl, rfl⟩
+  case true =>
+    have hsel1 := runSelect_pw true s now
+    obtain ⟨r1, r2, r3⟩ := runSelect_other s now
+    cases hsel : clientSel s pkt now with
+    | none =>
+      rw [handleSrtPacket_none s pkt now hne hc hsel]
+      exact ⟨hsel1.mono (fun a b h => Or.inl h), r1, r2⟩
+    | some i =>
+      rw [handleSrtPacket_some s pkt now i hne hc hsel]
+      obtain ⟨f1, f2, f3, f4⟩ := forwardVia_pw true (some s.cfg.connTimeoutMs) (runSelect s now).1 i pkt
+        (Codec.getSrtSequenceNumberS pkt) now
+        (fun _ l hl => clientSel_schedulable s pkt now i hsel l hl)
+      rw [r3] at f1 f2
+      have hstage2 : PW (SendStep true (some s.cfg.connTimeoutMs) s.failNext
+          (forwardVia (runSelect s now).1 i pkt (Codec.getSrtSequenceNumberS pkt) now).1.failNext) s.links
+          (forwardVia (runSelect s now).1 i pkt (Codec.getSrtSequenceNumberS pkt) now).1.links :=
+        PW.comp hsel1 f1 (fun a b c h1 h2 => SendStep.of_evolves h1 h2)
+      unfold clientFwd
+      dsimp only
+      split
+      · obtain ⟨p1, p2⟩ := stallProbes_pw true (some s.cfg.connTimeoutMs) pkt (Codec.getSrtSequenceNumberS pkt) now i
+          (forwardVia (runSelect s now).1 i pkt (Codec.getSrtSequenceNumberS pkt) now).1.links 0
+          (forwardVia (runSelect s now).1 i pkt (Codec.getSrtSequenceNumberS pkt) now).1.failNext
+        refine ⟨?_, f3.trans r1, f4.trans r2⟩
+        exact PW.comp hstage2 p1 (fun a b c h1 h2 => SendStep.comp h1 h2 f2 p2)
+      · exact ⟨hstage2, f3.trans r1, f4.trans r2⟩
+
 end Srtla.Hk
